@@ -106,6 +106,9 @@ func (r *wrapRead) GetLatest() ([]byte, error) {
 		r.w.ctl.gate(r.w.tid(), "g")
 	}
 	r.w.ctl.record("g")
+	if r.w.ctl.failing("g") {
+		return nil, errInjected
+	}
 	return r.inner.GetLatest()
 }
 
